@@ -52,7 +52,7 @@ func candidateLabels(raw json.RawMessage, out any) []string {
 		l = append(l, fmt.Sprintf("node:%v", m["node"]), fmt.Sprintf("pods:%v", m["pods"]))
 	}
 	if in.Reconcile {
-		l = append(l, "reconcile")
+		l = append(l, "reconcile", "reconcile-fault:"+in.Fault.label())
 	}
 	return l
 }
@@ -87,7 +87,8 @@ func shrinkWorld(raw json.RawMessage) []any {
 	}
 	for _, f := range []func(c *CaseIn) bool{
 		func(c *CaseIn) bool { r := c.Reupdate; c.Reupdate = false; return r },
-		func(c *CaseIn) bool { r := c.Reconcile; c.Reconcile = false; return r },
+		func(c *CaseIn) bool { r := c.Reconcile; c.Reconcile = false; c.Fault = nil; return r },
+		func(c *CaseIn) bool { r := !c.Fault.none(); c.Fault = nil; return r },
 		func(c *CaseIn) bool { r := c.Marked; c.Marked = false; return r },
 		func(c *CaseIn) bool { r := c.InQueue; c.InQueue = false; return r },
 		func(c *CaseIn) bool { r := c.Buffer > 0; c.Buffer = 0; return r },
@@ -105,7 +106,7 @@ func Ops() []*core.Op {
 	return append([]*core.Op{
 		{
 			Name: "c07.candidate",
-			Doc: "one node (+NodeClaim, NodePool, pods, PDBs) on the fake client, real state.Cluster fed by UpdateNodeClaim/UpdateNode/UpdatePod (+MarkForDeletion, NominateNodeForPod, buffer counts, queue entry, optional real nodeclaim.disruption reconcile): " +
+			Doc: "one node (+NodeClaim, NodePool, pods, PDBs) on the fake client, real state.Cluster fed by UpdateNodeClaim/UpdateNode/UpdatePod (+MarkForDeletion, NominateNodeForPod, buffer counts, queue entry, optional real nodeclaim.disruption reconcile — also with a failing cloud-provider drift check / NodePool read / status patch injected into that run): " +
 				"StateNode.ValidateNodeDisruptable, ValidatePodsDisruptable (real pdb.NewLimits), disruption.NewCandidate per class, every method of disruption.NewMethods: Class(), ShouldDisrupt, and disruption.GetCandidates",
 			N: func(t core.Tier) int {
 				if t == core.Thorough {
@@ -116,7 +117,7 @@ func Ops() []*core.Op {
 			Gen:  func(r *rand.Rand, t core.Tier) any { return genWorld(r, t == core.Thorough) },
 			Enum: func(t core.Tier) []any { return enumMatrix(t == core.Thorough) },
 			Impl: implCandidate,
-			Rule: "exhaustive: 3 base worlds (busy/empty/static) x TGP x {no modifier, every single modifier} and every pair of modifiers (quick: each pair in one of the six base worlds, rotating; thorough: in all six) over the blocker/decoy/eligibility modifier list; plus random worlds (0-4 modifiers, random pods/PDBs, clock at the nomination / do-not-disrupt / consolidateAfter edges). non-trivial = the state node is tracked and at least one blocker, decoy or eligibility modifier is present",
+			Rule: "exhaustive: 3 base worlds (busy/empty/static) x TGP x {no modifier, every single modifier} and every pair of modifiers (quick: each pair in one of the six base worlds, rotating; thorough: in all six) over the blocker/decoy/eligibility modifier list; plus random worlds (0-4 modifiers, random pods/PDBs, clock at the nomination / do-not-disrupt / consolidateAfter edges; a third of them with the real nodeclaim.disruption controller run first, half of those runs with a fault: 60% failing drift check (IsDrifted error / NodeClaimNotFound / GetInstanceTypes error), 10% unreadable NodePool, 20% refused status patch, 10% two faults). non-trivial = the state node is tracked and at least one blocker, decoy or eligibility modifier is present",
 			Nontrivial: func(raw json.RawMessage, out any) bool {
 				var in CaseIn
 				_ = json.Unmarshal(raw, &in)
@@ -131,7 +132,7 @@ func Ops() []*core.Op {
 		},
 		{
 			Name: "c07.history",
-			Doc: "event histories against ONE real state.Cluster (UpdateNodeClaim/DeleteNodeClaim, UpdateNode/DeleteNode, MarkForDeletion/UnmarkForDeletion, NominateNodeForPod, pod events, the real nodeclaim.disruption controller, clock ticks): " +
+			Doc: "event histories against ONE real state.Cluster (UpdateNodeClaim/DeleteNodeClaim, UpdateNode/DeleteNode, MarkForDeletion/UnmarkForDeletion, NominateNodeForPod, pod events, the real nodeclaim.disruption controller (also with a failing cloud-provider drift check / NodePool read / status patch injected into a run), clock ticks): " +
 				"after every event disruption.GetCandidates for each method of NewMethods",
 			N: func(t core.Tier) int {
 				if t == core.Thorough {
@@ -141,7 +142,7 @@ func Ops() []*core.Op {
 			},
 			Gen:        genHistory,
 			Impl:       implHistory,
-			Rule:       "random histories of 4-28 events (4-84 thorough) with ticks aimed at the end of the nomination window and of consolidateAfter; non-trivial = the set of selecting methods changes at least twice along the history",
+			Rule:       "random histories of 4-28 events (4-84 thorough) with ticks aimed at the end of the nomination window and of consolidateAfter; a third of the controller runs (two thirds of those that directly follow a pod event) have a fault injected: 60% failing drift check, 10% unreadable NodePool, 20% refused status patch, 10% two; non-trivial = the set of selecting methods changes at least twice along the history",
 			Nontrivial: historyNontrivial,
 			Labels:     historyLabels,
 			Signature:  func(raw json.RawMessage, _ any) string { return "history" },
